@@ -46,6 +46,11 @@ type c15Input struct {
 	Rule string `json:"rule,omitempty"` // violate: the rule that was broken
 	Raw  []byte `json:"raw,omitempty"`  // lenient / malformed: the bytes to decode
 	Note string `json:"note,omitempty"`
+	// Pad > 0: the message is decoded a further time with insignificant JSON white
+	// space added until it is Pad bytes long (the sender chooses the size of a
+	// message); PadAt 0 trailing blanks, 1 leading, 2 after the first byte, 3 trailing newlines and tabs
+	Pad   int `json:"pad,omitempty"`
+	PadAt int `json:"padAt,omitempty"`
 }
 
 type c15UT struct {
@@ -71,6 +76,7 @@ type c15Impl struct {
 	Again *c15Answer      `json:"again,omitempty"`
 	Alt   *c15Answer      `json:"alt,omitempty"`
 	Back  *c15Answer      `json:"back,omitempty"`
+	Ws    string          `json:"ws"`            // white-space check: how the answer for the padded bytes differs from the answer for the bytes themselves
 	Alias string          `json:"alias"`         // retained-bytes / retained-value check: what changed after a later Encode or after the input buffer was reused
 	Oob   string          `json:"oob"`           // the explicit-zeros probe (c15ZeroFillProbe) saw a write outside a short [32]byte array
 	UnmOk bool            `json:"unmOk"`         // lenient: bare goccy Unmarshal succeeded
@@ -321,6 +327,7 @@ func c15RunLocal(in c15Input) c15Impl {
 		}
 		c15DecodeRetained(in.Kind, data, &impl)
 		c15Repeat(in.Kind, snap, &impl)
+		c15PadCheck(in, snap, &impl)
 	case "lenient":
 		impl.Text = string(in.Raw)
 		// the first step of Decode…, repeated here to see the value before validation
@@ -342,6 +349,7 @@ func c15RunLocal(in c15Input) c15Impl {
 		}()
 		c15Decode(in.Kind, in.Raw, &impl, nil)
 		c15Repeat(in.Kind, in.Raw, &impl)
+		c15PadCheck(in, in.Raw, &impl)
 		impl.Oob = c15ZeroFillProbe(in.Kind, in.Raw)
 	case "gcstress":
 		c15GCStress(in.Kind, &impl)
@@ -353,6 +361,7 @@ func c15RunLocal(in c15Input) c15Impl {
 		c15Decode(in.Kind, in.Raw, &impl, env)
 		c15Repeat(in.Kind, in.Raw, &impl)
 		impl.Again, impl.Alt, impl.Back = nil, nil, nil // arbitrary bytes: no tree for the model, the Go-side comparison (impl.Alias) stands
+		c15PadCheck(in, in.Raw, &impl)
 		impl.Oob = c15ZeroFillProbe(in.Kind, in.Raw)
 	}
 	env.into(&impl)
@@ -561,6 +570,12 @@ func (b *c15Batch) flush() {
 		if impls[i].Alias != "" {
 			b.em.Hit("alias")
 		}
+		if impls[i].Ws != "" {
+			b.em.Hit("ws-dependent")
+		}
+		if b.ins[i].Pad > 0 {
+			b.em.Hit(fmt.Sprintf("padded:%s:%d", b.ins[i].Mode, b.ins[i].Pad))
+		}
 		if b.ins[i].Mode == "malformed" {
 			switch {
 			case impls[i].Panic != "":
@@ -600,23 +615,33 @@ func TestC15(t *testing.T) {
 	for _, in := range c15Edge() {
 		b.add("edge", in)
 	}
+	for _, in := range c15DomainEdge() {
+		b.add("edge", in)
+	}
 	r := NewRng(seed())
 	for i, n := 0, tierN(700, 7000); i < n; i++ {
-		b.add("gen", c15GenValid(r, em))
+		in := c15GenValid(r, em)
+		c15MaybePad(r, &in, 3)
+		b.add("gen", in)
 	}
 	nViol := tierN(26, 260) // per rule and message kind
 	for _, v := range c15Violations {
 		for i := 0; i < nViol; i++ {
 			in := v.make(r)
 			em.Hit("violate:" + in.Kind + ":" + in.Rule)
+			c15MaybePad(r, &in, 3)
 			b.add("gen", in)
 		}
 	}
 	for i, n := 0, tierN(3000, 30000); i < n; i++ {
-		b.add("gen", c15GenLenient(r, em))
+		in := c15GenLenient(r, em)
+		c15MaybePad(r, &in, 12)
+		b.add("gen", in)
 	}
 	for i, n := 0, tierN(20000, 200000); i < n; i++ {
-		b.add("gen", c15GenMalformed(r, em))
+		in := c15GenMalformed(r, em)
+		c15MaybePad(r, &in, 3)
+		b.add("gen", in)
 	}
 }
 
@@ -1043,6 +1068,17 @@ func c15BreakResult(r *Rng, rule string, res *ocr2keepers.CheckResult) {
 			res.PipelineExecutionState = uint8(r.Range(1, 255))
 		} else {
 			res.Retryable = true
+		}
+		// the later checks may be broken as well (the first one still decides): an
+		// ineligibility reason next to the error state - also the complementary
+		// one, state + reason = 256 -, a cleared eligible flag
+		switch r.Intn(4) {
+		case 0:
+			res.IneligibilityReason = uint8(256 - int(res.PipelineExecutionState)) // 0 stays 0
+		case 1:
+			res.IneligibilityReason = uint8(r.Range(1, 255))
+		case 2:
+			res.Eligible = false
 		}
 	case "ineligible":
 		if r.Bool() {
